@@ -5,6 +5,7 @@ From Coq Require Import List NArith ZArith Ascii.
 From SF Require Import Base.Str Shell.Model Shell.Proofs CwlCmd.Model CwlCmd.Proofs.
 Import ListNotations.
 Local Open Scope string_scope. Local Open Scope list_scope.
+Definition mkI3 n a b := mkI n a b None.   (* an input without a binding on its items *)
 
 (* CWLCommandTokenProcessor.bind against Builder.generate_arg, one binding, every value (null, booleans, numbers,
    strings, arrays of any length) and every combination of prefix / separate / itemSeparator / quoting flags:
@@ -61,7 +62,7 @@ Proof. exact stderr_unset_file. Qed.
 (* The witness that refuted the property before the fix of finding 1 (an array input whose binding does not write
    shellQuote: c = ["a;echo b"], prefix "$P"; the line used to be  tool $P a;echo b ) now agrees. *)
 Definition refute_tool : tool :=
-  mkT false ["tool"] [] [mkI "c" true (Some (mkB 1 (Some "$P") false None None VfNone))].
+  mkT false ["tool"] [] [mkI3 "c" true (Some (mkB 1 (Some "$P") false None None VfNone))].
 Definition refute_job : job := [("c", Arr [VStr "a;echo b"])].
 Example C30_array_default_quoted :
   sf_line refute_tool refute_job = "tool '$P' 'a;echo b'" /\
@@ -71,11 +72,14 @@ Proof. vm_compute. repeat split; reflexivity. Qed.
 (* Outside [tool_ok]: ShellCommandRequirement and shellQuote: false on the binding of an array (no valueFrom, no
    itemSeparator).  The reference still quotes the items, StreamFlow does not: the lines differ (known finding). *)
 Definition qf_tool : tool :=
-  mkT true ["tool"] [] [mkI "z" true (Some (mkB 0 (Some "-z") true None (Some false) VfNone))].
+  mkT true ["tool"] [] [mkI3 "z" true (Some (mkB 0 (Some "-z") true None (Some false) VfNone))].
 Definition qf_job : job := [("z", Arr [VStr "= say hi"])].
 Theorem C30_array_quote_false_refuted :
   exists t j, job_typed t j /\ spec_line t j = "tool -z '= say hi'" /\ sf_line t j = "tool -z = say hi".
-Proof. exists qf_tool, qf_job. split; [repeat constructor; discriminate|]. vm_compute. split; reflexivity. Qed.
+Proof.
+  exists qf_tool, qf_job. split; [|vm_compute; split; reflexivity].
+  repeat constructor; try discriminate. intros H; exfalso; apply H; reflexivity.
+Qed.
 
 (* Floats.  Both sides render a float from the job's spelling through decimal.Decimal ([dec_repr]; the repr of the
    theorems above includes it, so C30_binding_equiv .. C30_argv_equiv cover float values and float arrays).  What the
@@ -96,20 +100,72 @@ Example C30_float_examples :
   dec_repr false "1" "" (Some (-7)%Z) = "0" /\ dec_repr false "0" "" (Some 3%Z) = "0".
 Proof. vm_compute. repeat split; reflexivity. Qed.
 
+(* ---------------------------------------------------------------- bindings on array items
+   cwltool's sort keys were read off Builder.bind_input by instrumenting generate_arg (design/notes/C30.md):
+     array with a binding of its own at position P:  [P, name]  and its items  [P, name, n, itempos, name, name]
+     array without one:                               its items  [n, itempos, name, name]   (index FIRST)
+   [tool_ok] admits a binding on the items under a binding on the array that leaves shellQuote unwritten and has a
+   shell-safe prefix (if any); for those C30_line_equiv / C30_argv_equiv hold as stated: prefix, then the items in
+   index order, wherever the item binding's position points -- in both runners. *)
+Theorem C30_item_binding_order : forall t j,
+  tool_ok t -> job_typed t j -> quotes_all t -> sf_argv t j = Some (spec_argv t j).
+Proof. exact argv_equiv. Qed.
+Definition it_tool : tool :=
+  mkT false ["tool"] []
+      [mkI "x" true (Some (mkB 2 (Some "-x") true None None VfNone)) (Some (mkB 7 (Some "-i y") true None None VfNone));
+       mkI3 "y" false (Some (mkB 1 None true None None VfNone)); mkI3 "w" false (Some (mkB 3 None true None None VfNone))].
+Definition it_job : job := [("x", Arr [VStr "a b"; VStr "it's"; VStr "$HOME"]); ("y", Sc (VStr "Y")); ("w", Sc (VStr "W"))].
+Example C30_item_binding_order_ex :
+  tool_ok it_tool /\ job_typed it_tool it_job /\ quotes_all it_tool /\
+  spec_argv it_tool it_job = ["tool"; "Y"; "-x"; "-i y"; "a b"; "-i y"; "it's"; "-i y"; "$HOME"; "W"].
+Proof.
+  split; [|split; [|split]].
+  - split; repeat constructor; try discriminate; try (apply name_ok_head; reflexivity); try (intros; reflexivity).
+  - repeat constructor; try discriminate; intros H l E; try (exfalso; apply H; reflexivity);
+      inversion E; subst; repeat constructor.
+  - intros b Hb. unfold quoted. reflexivity.
+  - vm_compute. reflexivity.
+Qed.
+
+(* without a binding on the array the reference orders the items by INDEX first, StreamFlow by the item position:
+   x = [a, b, c] (items at position 2), y at 1, w at 3 *)
+Definition io_tool : tool :=
+  mkT false ["tool"] []
+      [mkI "x" true None (Some (mkB 2 None true None None VfNone));
+       mkI3 "y" false (Some (mkB 1 None true None None VfNone)); mkI3 "w" false (Some (mkB 3 None true None None VfNone))].
+Definition io_job : job := [("x", Arr [VStr "a"; VStr "b"; VStr "c"]); ("y", Sc (VStr "Y")); ("w", Sc (VStr "W"))].
+Theorem C30_item_only_order_refuted :
+  exists t j, spec_argv t j = ["tool"; "a"; "b"; "Y"; "c"; "W"] /\ sf_argv t j = Some ["tool"; "Y"; "a"; "b"; "c"; "W"].
+Proof. exists io_tool, io_job. vm_compute. split; reflexivity. Qed.
+
+(* a binding on the array that DOES write shellQuote over bound items: StreamFlow quotes the items twice;
+   one that does not: its own prefix goes unquoted ("$P" is expanded away by the shell) *)
+Definition tw_tool (q : option bool) : tool :=
+  mkT true ["tool"] []
+      [mkI "k" true (Some (mkB 0 (Some "$P") true None q VfNone)) (Some (mkB 0 None true None None VfNone))].
+Definition tw_job : job := [("k", Arr [VStr "a b"])].
+Theorem C30_item_twice_refuted :
+  exists t j, spec_line t j = "tool '$P' 'a b'" /\ sf_line t j = "tool '$P' ''""'""'a b'""'""''".
+Proof. exists (tw_tool (Some true)), tw_job. vm_compute. split; reflexivity. Qed.
+Theorem C30_item_array_prefix_refuted :
+  exists t j, spec_line t j = "tool '$P' 'a b'" /\ sf_line t j = "tool $P 'a b'".
+Proof. exists (tw_tool None), tw_job. vm_compute. split; reflexivity. Qed.
+
 (* non-vacuity *)
 Definition ex_tool : tool :=
   mkT true ["python"; "dump tool.py"]
       [mkB 1 None true None None (VfLit "a;echo b"); mkB 1 (Some "-x y") true None None (VfIn "s")]
-      [mkI "s" false (Some (mkB 0 (Some "--a b=") false None None VfNone));
-       mkI "l" true (Some (mkB (-1) (Some "-'q") true (Some "' '") (Some true) VfNone));
-       mkI "n" false (Some (mkB 1 None true None None VfNone))].
+      [mkI3 "s" false (Some (mkB 0 (Some "--a b=") false None None VfNone));
+       mkI3 "l" true (Some (mkB (-1) (Some "-'q") true (Some "' '") (Some true) VfNone));
+       mkI3 "n" false (Some (mkB 1 None true None None VfNone))].
 Definition ex_job : job := [("s", Sc (VStr "x'y $HOME")); ("l", Arr [VStr "it's"; VStr ""; VInt (-3)]); ("n", Sc VNull)].
 Example C30_ex_ok : tool_ok ex_tool /\ quotes_all ex_tool /\ job_typed ex_tool ex_job.
 Proof.
   split; [|split].
   - split; repeat constructor; try discriminate; try (apply name_ok_head; reflexivity); try (intros; reflexivity).
   - intros b Hb. vm_compute in Hb. repeat (destruct Hb as [<-|Hb]; [reflexivity|]). destruct Hb.
-  - repeat constructor; intros H l; try discriminate; vm_compute; discriminate.
+  - repeat constructor; try (intros H l; try discriminate; vm_compute; discriminate);
+      intros H; exfalso; apply H; reflexivity.
 Qed.
 Example C30_ex_argv :
   sf_argv ex_tool ex_job
@@ -128,5 +184,9 @@ Print Assumptions C30_quote.
 Print Assumptions C30_env_redirections.
 Print Assumptions C30_array_quote_false_refuted.
 Print Assumptions C30_float_spelling_kept.
+Print Assumptions C30_item_binding_order.
+Print Assumptions C30_item_only_order_refuted.
+Print Assumptions C30_item_twice_refuted.
+Print Assumptions C30_item_array_prefix_refuted.
 Print Assumptions C30_stream_targets.
 Print Assumptions C30_stderr_unset_not_redirected.
